@@ -1,2 +1,50 @@
-(* C01 -- placeholder, replaced below by the refinement theorems. *)
+(* C01 -- Parsing conforms to the declared command-line grammar.
+   Property theorems only; proofs live in Lemmas/ConvLaws.v (and Lemmas/OkLaws.v).
+   The declared grammar is Model/Conv.v: `level` (the conventional fragment), `compile` (the
+   combinator term), `denote` (one left-to-right attribution scan + arity and value checks).
+   Full statement (C01_conformance, NOT proved in this revision):
+     forall l argv,  conv_ok l ->
+       (forall v, denote l argv = Accept v -> run_inner feat env (compile_options l) None argv = OutOk v) /\
+       (denote l argv = Reject -> exists m, run_inner feat env (compile_options l) None argv = OutStderr m).
+   It is decided on every run by conformance testing of the IMPLEMENTATION against `denote`
+   (sentences in every spelling and order, near-miss and mutated non-sentences) and of the
+   evaluator model against the implementation on the same vectors.
+   Proved here (PARTIAL): the "unknown name" half of the Reject direction for whole subcommand
+   trees, as a corollary of the exactly-once theorem of C05. *)
+From Coq Require Import List Bool.
 From BpafModel Require Import Conv.
+From BpafLemmas Require Import Tac EvalEq Find Reach Ledger NoLoss C05Lemmas OkReach OkLaws ConvLaws.
+Import ListNotations.
+
+(* a key (`-x`, `--name`, with or without an attached value) that no item of the level tree owns
+   and whose text is not a command name is never swallowed: no value is returned *)
+Theorem C01_unowned_key_never_value_partial :
+  forall feat env l name argv st amb i a,
+  initial_state (compile_options l) name argv = (st, amb) ->
+  nth_error (items st) i = Some a -> live st i -> is_key a = true ->
+  (forall it, In it (all_items l) -> matches_arg (item_named it) false a = false) ->
+  (forall w, In w (all_cmd_names l) -> beqb (arg_os a) w = false) ->
+  forall v, run_inner feat env (compile_options l) name argv <> OutOk v.
+Proof. exact unowned_key_never_value. Qed.
+Print Assumptions C01_unowned_key_never_value_partial.
+
+(* the declarative grammar at work: `-v`, `--out=FILE` (required), words...; sentences in two
+   spellings denote the same value, a duplicated switch / a missing required argument / a value
+   glued to a switch are not sentences, `--help` is left to C10 *)
+Definition ex_level : level :=
+  Level [CSwitch (mkNamed [118%N] [[118;101;114;98]%N] [] None);
+         CArg (mkNamed [111%N] [[111;117;116]%N] [] None) [70%N] TyString ARequired]
+        (TPos [mkCPos [87%N] TyString QMany]).
+Example C01_example :
+  denote ex_level [[45;118]; [45;45;111;117;116;61;120]; [97]; [98]]%N
+    = Accept (VTuple [VBool true; VBytes [120%N]; VList [VBytes [97%N]; VBytes [98%N]]]) /\
+  denote ex_level [[97]; [45;111;120]; [98]; [45;45;118;101;114;98]]%N
+    = Accept (VTuple [VBool true; VBytes [120%N]; VList [VBytes [97%N]; VBytes [98%N]]]) /\
+  denote ex_level [[45;118]; [45;118]; [45;111;120]]%N = Reject /\
+  denote ex_level [[45;118]]%N = Reject /\
+  denote ex_level [[45;45;118;101;114;98;61;49]; [45;111;120]]%N = Reject /\
+  denote ex_level [[45;45;104;101;108;112]]%N = Unspecified /\
+  run_inner (mkFeat true true false) (fun _ => None) (compile_options ex_level) None
+            [[45;118]; [45;45;111;117;116;61;120]; [97]; [98]]%N
+    = OutOk (VTuple [VBool true; VBytes [120%N]; VList [VBytes [97%N]; VBytes [98%N]]]).
+Proof. vm_compute. repeat split; reflexivity. Qed.
